@@ -8,6 +8,7 @@ import argparse, hashlib, json, os, shutil, sys, tempfile, time, concurrent.futu
 from . import verus as vverus
 from . import kani as vkani
 from . import replay as vreplay
+from . import scans as vscans
 
 VERIF = os.path.dirname(os.path.dirname(os.path.abspath(__file__)))
 REPO = os.environ.get('VERIF_REPO', '/repo')
@@ -150,6 +151,25 @@ def _decide(args, P, seed, scratch, t0):
                 if sid == 'contract' and len(samples) < 6:
                     samples.append(dict(unit=r.unit, fn=f['name'], contract=' '.join(body.split())[:400]))
                     break
+    scan_results = []
+    for sc in P.get('scans', []):
+        try:
+            sr = vscans.SCANS[sc](REPO)
+        except Exception as e:
+            undecided.append('scan %s failed to run: %s' % (sc, e))
+            continue
+        scan_results.append(sr)
+        obligations += 1
+        if sr['findings']:
+            for fd in sr['findings']:
+                failures.append(dict(backend='scan', unit='scan:' + sc, fn=str(fd.get('fn')), kind='scan', harness=None,
+                                     clause='%s:%s %s' % (fd['file'], fd['line'], fd['text']),
+                                     obligation='scan::%s::%s:%s' % (sc, fd['file'], fd['line']),
+                                     message=sr['statement'], rendered=json.dumps(fd), in_extracted_fn=True,
+                                     failing_input=fd))
+        else:
+            discharged += 1
+        assumptions.add('scan %s is syntactic: %s' % (sc, sr['statement']))
     kani_ev = None
     if kres is not None:
         kani_ev = kres.evidence()
@@ -219,6 +239,7 @@ def _decide(args, P, seed, scratch, t0):
         samples=samples + (kani_ev['samples'] if kani_ev else []),
         undecided=undecided,
         known_findings_hit=[k.get('what') for k, _ in known_hit],
+        scans=[dict(name=x['name'], sites=x['sites'], findings=len(x['findings'])) for x in scan_results],
         claim=P.get('claim'),
         not_claimed=P.get('not_claimed'),
     )
